@@ -144,8 +144,12 @@ namespace AIToolbox::MDP {
                 // Defaulting
                 v1_ = makeValueFunction(S);
             }
-            else
+            else {
                 v1_ = vParameter_;
+                // bellmanOperatorInplace() iterates over the action vector: it must
+                // have one entry per state whatever the caller put in it.
+                v1_.actions.resize(S);
+            }
         }
 
         const auto & ir = [&]{
